@@ -41,6 +41,21 @@ CLAIMED = {
         note='reference h/ref.h; |n| <= 48 months (unwinding assertion), years unbounded inside the range',
         technique='CBMC bounded model checking of month/year add + fixup against reference month arithmetic',
         design='3/C04'),
+    'C07': dict(
+        text=('Bounded model checking of lib/bizda.c through lib/date-core.c: __get_d_equiv for each start weekday '
+              'and every count 1 <= |n| <= 2^20 is the offset of the n-th Mon-Fri day (relational oracle: counting '
+              'function B(t)); dt_dadd_b per calendar; dt_ddiff(DURBD) counts and inverts the addition; every '
+              'bizda month/index maps to the index-th business day of the month.'),
+        note='oracle B(t) = 5*(t/7)+min(t%7,5); loop calendars bounded in |n|; three listed known findings, one defect fixed',
+        technique='CBMC bounded model checking of the business-day closed forms against a counting oracle',
+        design='3/C07'),
+    'C08': dict(
+        text=('Bounded model checking of dt_dcmp/__ymcw_cmp/dt_d_in_range_p over pairs and triples of symbolic days '
+              'for ymd, ymcw, ywd, yd, daisy: the result is the sign of the difference of reference day numbers; '
+              'in-range is lo <= d <= hi.'),
+        note='canonical values assumed (produced by C01/C02-checked converters); sort(1), cut(1), pipes outside',
+        technique='CBMC bounded model checking of comparison functions against the integer order of day numbers',
+        design='3/C08'),
 }
 
 NA = {}
